@@ -132,6 +132,51 @@ def extreme_es_fails(rng):
     return None
 
 
+def explainer_pair_fails(kind, dynamic, T, sd):
+    """the same stream, callbacks and draws through a real explainer once in exact rationals and once in binary64: the float
+    importance values must stay within rounding of the exact ones ("trackers AND EXPLAINERS stay close to the exact result")"""
+    import random as pyrandom
+    import warnings
+    from harness import rng as hrng
+    from harness.q import Q
+    from ixai.explainer import IncrementalPFI, IncrementalSage
+    from ixai.storage import GeometricReservoirStorage
+    from ixai.imputer import MarginalImputer
+    names = ["a", "b", "c"]
+    out = {}
+    for mode in ("exact", "float"):
+        conv = (lambda v: Q(v)) if mode == "exact" else float
+        r = pyrandom.Random(sd)
+        w = [r.randint(-8, 8) / 4 for _ in range(4)]
+
+        def model(x):
+            return {"output": conv(w[0]) * x["a"] + conv(w[1]) * x["b"] * x["c"] + conv(w[2]) * x["c"] + conv(w[3])}
+
+        def loss(y, p):
+            return (p["output"] - y) * (p["output"] - y)
+        with warnings.catch_warnings():
+            warnings.simplefilter("ignore")
+            d = hrng.Scripted(pyrandom.Random(sd + 1), real_fn=lambda g: g.random())
+            with d.installed():
+                st = GeometricReservoirStorage(size=4, store_targets=False, constant_probability=1.0)
+                cls = IncrementalPFI if kind == "pfi" else IncrementalSage
+                ex = cls(model, loss, names, storage=st, imputer=MarginalImputer(model, "joint", st), n_inner_samples=2,
+                         dynamic_setting=dynamic, smoothing_alpha=conv(0.125))
+                vals = []
+                for t in range(T):
+                    x = {f: conv(r.randint(-64, 64) / 16 + (1000.0 if f == "c" else 0.0)) for f in names}
+                    y = conv(r.randint(-64, 64) / 16)
+                    vals.append(dict(ex.explain_one(x, y)))
+        out[mode] = vals
+    for t, (e, f) in enumerate(zip(out["exact"], out["float"])):
+        scale = 1.0 + max([abs(float(v)) for v in e.values()] + [0.0])
+        for k in e:
+            fv = float(f[k])
+            if not math.isfinite(fv) or abs(fv - float(e[k])) > 1e-9 * scale * (t + 1):
+                return f"after {t + 1} calls importance of {k!r} is {fv!r} in binary64 but {float(e[k])!r} in exact arithmetic (same stream, callbacks and draws)"
+    return None
+
+
 def run(tier="quick", seed=0, replay=None):
     chk = core.Check("C20", tier, seed, "proof")
     chk.rule = ("float streams of 8 shapes (gaussian, large offset up to 1e9*spread, sorted, alternating, constant-then-jump, "
@@ -204,6 +249,17 @@ def run(tier="quick", seed=0, replay=None):
                 if f:
                     chk.violation("es-float", f"ExponentialSmoothingTracker in float, {shape} stream: {f}",
                                   {"tracker": "es", "alpha": alpha, "vs_bits": [bits(v) for v in vs[:5000]], "n": n})
+    for i in range(6 if quick else 40):
+        kind, dynamic = ["pfi", "sage"][i % 2], (i // 2) % 2 == 0
+        T = 25 if quick else 400
+        sd = rng.randrange(10 ** 6)
+        chk.case({"oracle": "explainer-float-vs-exact", "kind": kind, "dynamic": dynamic, "calls": T, "seed": sd}, nontrivial=True, sample=(i == 0))
+        try:
+            f = explainer_pair_fails(kind, dynamic, T, sd)
+        except Exception as exn:
+            f = f"raised {core.err_kind(exn)}: {exn}"
+        if f:
+            chk.violation("explainer-float", f"{kind} (dynamic={dynamic}, seed {sd}): {f}", {"tracker": "explainer", "kind": kind, "dynamic": dynamic, "calls": T, "seed": sd})
     ex = extreme_es_fails(rng)
     chk.case({"oracle": "es-extreme-magnitudes"}, nontrivial=True, sample=False)
     if ex:
